@@ -227,7 +227,14 @@ impl<'a> Gen<'a> {
                 2 => MObj::Int(gen_int(self.ctx)),
                 3 => MObj::Real(gen_real(self.ctx, &self.cfg)),
                 4 => MObj::Name(gen_bytes(self.ctx, self.cfg.alphabet, self.cfg.max_len.min(40))),
-                5 => MObj::Str(gen_bytes(self.ctx, self.cfg.alphabet, self.cfg.max_len), false),
+                5 => {
+                    if self.ctx.chance(W, 1, 24, "keyword-string") {
+                        let words: [&[u8]; 5] = [b"startxref\n12\n%%EOF", b"%%EOF", b"endobj", b"trailer <</Size 1>>", b"%PDF-1.7"];
+                        MObj::Str(words[self.ctx.draw(W, 5, "keyword") as usize].to_vec(), false)
+                    } else {
+                        MObj::Str(gen_bytes(self.ctx, self.cfg.alphabet, self.cfg.max_len), false)
+                    }
+                }
                 6 => MObj::Str(gen_bytes(self.ctx, self.cfg.alphabet, self.cfg.max_len), true),
                 7 => self.gen_ref(),
                 8 => {
@@ -256,7 +263,7 @@ impl<'a> Gen<'a> {
     }
 
     pub fn gen_stream_body(&mut self) -> Vec<u8> {
-        let mut b = match self.ctx.draw(W, 6, "body-class") {
+        let mut b = match self.ctx.draw(W, 7, "body-class") {
             0 => Vec::new(),
             1 => gen_bytes(self.ctx, Alphabet::Binary, self.cfg.max_len * 4),
             2 => {
@@ -266,6 +273,8 @@ impl<'a> Gen<'a> {
                 v
             }
             3 => b"BT /F1 12 Tf (hello) Tj ET".to_vec(),
+            // user data that looks like file structure (an embedded PDF, say)
+            4 => b"1 0 obj\n<< /Length 3 >>\nstream\nabc\nendstream\nendobj\nxref\n0 1\n0000000000 65535 f \ntrailer\n<< /Size 1 >>\nstartxref\n9\n%%EOF\n".to_vec(),
             _ => gen_bytes(self.ctx, self.cfg.alphabet, self.cfg.max_len * 2),
         };
         match self.ctx.draw(W, 6, "body-tail") {
